@@ -70,7 +70,7 @@ func genC19(g *gen) {
 		steps = append(steps, fmt.Sprintf("vset=%d", 2))
 		var live []tv
 		newT := func() {
-			sh := [][]int{{2, 3}, {3, 2}, {2, 3, 2}, {4}, {3, 3}, {2, 2, 2}, {6}, {1, 4}}[g.r.intn(8)]
+			sh := [][]int{{2, 3}, {3, 2}, {2, 3, 2}, {4}, {3, 3}, {2, 2, 2}, {6}, {1, 4}, {1, 1}, {1, 1, 1}, {2, 1}}[g.r.intn(11)]
 			steps = append(steps, fmt.Sprintf("new %s %s %s", dt, ints(sh), g.r.pick([]string{"C", "C", "C", "Fraw"})))
 			live = append(live, tv{nv, sh, dt})
 			nv++
@@ -90,7 +90,13 @@ func genC19(g *gen) {
 			}
 			ti := g.r.intn(len(live))
 			t := live[ti]
-			switch g.r.intn(17) {
+			switch g.r.intn(18) {
+			case 17:
+				// a reduction that only reads its operand (arg-reductions build their result from AP.T / AP.S copies)
+				if t.shape != nil && len(t.shape) > 0 && dt != "c128" {
+					steps = append(steps, fmt.Sprintf("arg %s fn $%d %d vs=2", g.r.pick([]string{"argmax", "argmin"}), t.v, g.r.intn(len(t.shape))))
+					nv++
+				}
 			case 0:
 				if len(live) < 8 {
 					newT()
